@@ -330,6 +330,7 @@ type locksState struct {
 	xhash      bool
 	s          *sched.S
 	rm         *remap.ReMap
+	cap        int // readers admitted per key at a time (0: unlimited)
 	wide, ref  lockAPI
 	// semaphore tokens per (thread, side): thread -> key -> *Weighted
 	tokW, tokR map[int]map[string]*semap.Weighted
@@ -371,12 +372,21 @@ func (r *runner) newLocks(f []string) string {
 		} else {
 			ls.wide = tlockAPI[string]{keylock.NewTKeyLockeGrp[string](opt)}
 		}
-	case "semap":
-		ls.name, ls.ref = "semap.WideSemMap", semapAPI{semap.NewSemMap()}
+	case "semap", "semap-r1", "semap-r2", "semap-r3":
+		// both maps are built with the SAME read/write ratio (default 10, or WithRwRatio(1|2|3)): at most that many readers of a key
+		ls.cap = 10
+		opts := []semap.Option{semap.WithPrime(n)}
+		var refOpts []semap.Option
+		if f[1] != "semap" {
+			ls.cap = int(f[1][len(f[1])-1] - '0')
+			opts = append(opts, semap.WithRwRatio(ls.cap))
+			refOpts = append(refOpts, semap.WithRwRatio(ls.cap))
+		}
+		ls.name, ls.ref = "semap.WideSemMap", semapAPI{semap.NewSemMap(refOpts...)}
 		if x {
-			ls.wide = semapAPI{semap.NewWideXHashSemMap(semap.WithPrime(n))}
+			ls.wide = semapAPI{semap.NewWideXHashSemMap(opts...)}
 		} else {
-			ls.wide = semapAPI{semap.NewWideSemMap(semap.WithPrime(n))}
+			ls.wide = semapAPI{semap.NewWideSemMap(opts...)}
 		}
 	default:
 		return "bad-op"
@@ -394,12 +404,16 @@ func (ls *locksState) tok(m map[int]map[string]*semap.Weighted, t int) map[strin
 
 // free: may key k be taken in this mode given the harness's own table of holders?
 func (ls *locksState) free(k string, write bool) bool {
+	readers := 0
 	for _, h := range ls.holds {
 		if h.key == k && (write || h.write) {
 			return false
 		}
+		if h.key == k {
+			readers++
+		}
 	}
-	return true
+	return write || ls.cap == 0 || readers < ls.cap
 }
 
 func (r *runner) locksOp(f []string) string {
@@ -627,8 +641,37 @@ func parseNatTok(s string) (int, bool) {
 	return n, err == nil
 }
 
-// locksCleanup: nothing is released at the end of a lock script. Group and reference locker are fresh objects per
-// script, so what stays held or blocked harms nobody (the parked goroutines end with the child process); and on a
-// defective group the table of holders may be off, where one release too many of a sync.RWMutex is a FATAL runtime
-// error that no recover() catches.
-func (r *runner) locksCleanup() { r.ls = nil }
+// locksCleanup releases what the script left held, so that blocked goroutines of this script end (thousands of parked
+// goroutines would make every later quiescence snapshot slower). Only when group and reference never diverged
+// (`lockBroken` false: every call answered alike and, for the key lockers, registered the same readers/writers), and
+// never on the harness goroutine: on a defective group one release too many of a sync.RWMutex is a FATAL runtime error.
+func (r *runner) locksCleanup() {
+	ls := r.ls
+	r.ls = nil
+	if ls == nil || r.lockBroken {
+		return
+	}
+	for _, h := range ls.holds {
+		k, ok := parseKey(h.key + ":0")
+		if !ok {
+			continue
+		}
+		h := h
+		for _, side := range []struct {
+			api lockAPI
+			tok map[int]map[string]*semap.Weighted
+		}{{ls.ref, ls.tokR}, {ls.wide, ls.tokW}} {
+			side := side
+			t := ls.s.Go("cleanup", func() string { side.api.release([]key{k}, h.write, h.multi, ls.tok(side.tok, h.t)); return "ret" })
+			_ = ls.s.Settle()
+			if t.State() != "ret:ret" {
+				return
+			}
+		}
+		cw, ww, ok1 := ls.wide.counts(k)
+		cr, wr, ok2 := ls.ref.counts(k)
+		if ok1 && ok2 && (cw != cr || ww != wr) {
+			return
+		}
+	}
+}
